@@ -357,7 +357,13 @@ class PyvalColorizer:
             # is not relevant to annotations.
             self._output(str(pyval), self.CONST_TAG, state, link=True)
         elif pyvaltype is int:
-            self._output(str(pyval), self.NUMBER_TAG, state)
+            try:
+                number = str(pyval)
+            except ValueError:
+                # The decimal string conversion is limited to sys.get_int_max_str_digits() digits,
+                # there is no limit for the hexadecimal notation.
+                number = hex(pyval)
+            self._output(number, self.NUMBER_TAG, state)
         elif pyvaltype is float or pyvaltype is complex:
             # 'inf' is not a number literal: an overflowing literal like 1e400 is
             # presented as 1e309 (same thing as ast.unparse() does).
